@@ -243,7 +243,8 @@ def do_replay(pid, path):
     else:
         import e2
         e2.prepare()
-        rep = e2.native_replay(v['check'], v['input_hex'])
+        hx = ('00' * v['scale_input'][0] + v['scale_input'][1]) if v.get('scale_input') else v['input_hex']
+        rep = e2.native_replay(v.get('fn', v['check']), hx)
         print(json.dumps(rep))
         if e2.reproduced(rep):
             print('VIOLATION property=%s replay=%s' % (pid, path))
